@@ -1434,7 +1434,7 @@ fn c12(thorough: bool) -> Suite {
         &[Class::P],
         &[vec![(S, S), (S, S)], vec![(A, A), (S, S)]],
         &[(S, Conv::Clone)],
-        &[env(2, 1, None, if thorough { UNB } else { pb2(thorough) })],
+        &[env(2, 1, None, pb2(thorough))],
         false,
     ));
     if thorough {
@@ -1455,7 +1455,7 @@ fn c12(thorough: bool) -> Suite {
     }
     Suite {
         cfg: cfg(&[Oracle::Counts, Oracle::Outcome, Oracle::Linear], &[], false, false),
-        rule: "concurrent clone / clone_sync / clone_async / to_sync / to_async / drop / close with sender_count() / receiver_count() observed at any point, 2 threads x <=2 ops (thorough: every schedule, plus 3 threads); every observed count must be a count of the reference model under some interleaving (ledger of live handles; 0 after close, never revived)".into(),
+        rule: "concurrent clone / clone_sync / clone_async / to_sync / to_async / drop / close with sender_count() / receiver_count() observed at any point, 2 threads x <=2 ops (thorough: plus 3 threads); every observed count must be a count of the reference model under some interleaving (ledger of live handles; 0 after close, never revived)".into(),
         programs: ps,
     }
 }
